@@ -126,3 +126,19 @@ def document_ends_with_flush(repo):
     if "{ grammar::document::document(&mut self);" not in b2:
         return False, "Parser::parse no longer starts with grammar::document::document(&mut self)"
     return True, "document() ends with push_ignored(); Parser::parse runs document() first"
+
+
+@frame("coordinate_display_formats")
+def coordinate_display_formats(repo):
+    """Display of the five coordinate kinds is write!(f, ..) of exactly the pieces the parsers return, with the separators of the grammar."""
+    sf = SourceFile(repo, "crates/apollo-compiler/src/coordinate.rs")
+    want = {"TypeCoordinate": '"{ty}"', "TypeAttributeCoordinate": '"{ty}.{field}"', "FieldArgumentCoordinate": '"{ty}.{field}({argument}:)"',
+            "DirectiveCoordinate": '"@{directive}"', "DirectiveArgumentCoordinate": '"@{directive}({argument}:)"'}
+    for ty, fmt in want.items():
+        it = sf.find("fn", "fmt", r"fmt::Display for %s" % ty)
+        body = " ".join(it.text.split())
+        if ("write!(f, %s)" % fmt) not in body:
+            return False, "Display for %s is no longer write!(f, %s)" % (ty, fmt)
+        if ty == "TypeAttributeCoordinate" and "attribute: field" not in body:
+            return False, "Display for TypeAttributeCoordinate no longer binds attribute as `field`"
+    return True, "Display impls are format strings of exactly the parsed pieces: " + ", ".join(want.values())
